@@ -59,6 +59,30 @@ class C11(Prop):
   def strategy(self, tier):
     return cancel_case()
 
+  def extra(self, tier, seed, shard, nshards, stats):
+    """A regular family for the race between a cancellation and a source that finishes at the
+    same instant: an endless source, a one-shot and a two-shot source (period 0.5), the endless
+    one cancelled at t = 0.5 or t = 1.0; at that instant the canceller runs k1 steps, then one of
+    the finishing timer threads k2 steps, then the canceller again."""
+    idx = 0
+    srcs = [{"kind": "fifo", "period": 0.5, "times": 0, "deferred": True, "sig": "VA"},
+            {"kind": "fifo", "period": 0.5, "times": 1, "deferred": True, "sig": "VB"},
+            {"kind": "lifo", "period": 0.5, "times": 2, "deferred": True, "sig": "VC"}]
+    for at, pick in ((0.5, 2), (1.0, 3), (0.5, 1), (1.0, 2)):
+      for k1 in range(1, 36, 2):
+        for k2 in range(4, 61, 8):
+          idx += 1
+          if idx % nshards != shard:
+            continue
+          case = {"sources": srcs, "cancels": [{"by": "id", "target": 0, "at": at, "form": "same"}],
+                  "schedule": [], "timed_schedule": {str(at): [[0, k1], [pick, k2], [0, 3000]]}}
+          try:
+            self.check(case, stats)
+          except PropertyViolation as v:
+            yield case, v
+            return
+    stats.classes["scripted_schedule_family"] = idx
+
   def check(self, case, stats):
     if "window_search" in case:
       # a listed finding described by a small family of schedules rather than one fragile
